@@ -43,6 +43,7 @@ def formula_set(tier):
     if not quick:
         Uc = F.unary_ops(((0, 1), (1, 2)), ops=OPS_U)
         fs += list(F.chains(3, Uc, PXa))
+    fs += [f for f in F.patterns() if not F.has_op(f, ('iff', 'xor'))]
     out, seen = [], set()
     for f in fs:
         if f not in seen:
